@@ -61,11 +61,15 @@ func (b *baseCockpit) start() *spinner.Spinner {
 
 func (b *baseCockpit) add(t *task.Task) {
 	b.mu.Lock()
-	defer b.mu.Unlock()
-
 	b.tasks = append(b.tasks, t)
+	b.mu.Unlock()
 
-	if b.spinner == nil {
+	// the spinner's goroutine takes b.mu from its update callback while it holds the spinner's own lock (and it
+	// is running as soon as the spinner is created with a colour): the spinner is set up without b.mu
+	b.spinMu.Lock()
+	defer b.spinMu.Unlock()
+
+	if b.spinner == nil && !b.stopped {
 		b.spinner = b.start()
 		go func() {
 			<-b.closeCh
@@ -91,7 +95,7 @@ func (b *baseCockpit) remove(t *task.Task) {
 	b.mu.Unlock()
 
 	// a task that was skipped or failed before its output started was never added
-	if !found || b.spinner == nil {
+	if !found {
 		return
 	}
 
@@ -105,6 +109,9 @@ func (b *baseCockpit) remove(t *task.Task) {
 	msg := fmt.Sprintf("\r\033[K%s Finished %s in %s\r\n", mark, aurora.Bold(t.Name), t.Duration())
 	b.spinMu.Lock()
 	defer b.spinMu.Unlock()
+	if b.spinner == nil {
+		return
+	}
 	if b.stopped {
 		fmt.Fprint(b.w, msg)
 		return
